@@ -98,6 +98,18 @@ def run(chk, replay_rec):
     res = chk.tlc("PipelineRefinesCore", cfg_text=pipe_cfg(np=1, mw=3, live=False).replace("SPECIFICATION Spec", "SPECIFICATION Spec\nINVARIANT CoreIndInv\nPROPERTY CoreSpec\nCONSTANT BatchSize <- [PipeCore] FiniteBatch"),
                   timeout=900, name="Pipeline(np=1) refines PipeCore")
     chk.model_ok(res, "Pipeline => PipeCore!Spec")
+    n0 = chk.apalache("PipeCoreN", ["--cinit=CInit", "--init=Init", "--inv=IndInv", "--length=0"], name="PipeCoreN Init => IndInv")
+    n1 = chk.apalache("PipeCoreN", ["--cinit=CInit", "--init=IndInit", "--inv=IndInv", "--length=1"],
+                      name="PipeCoreN IndInv /\\ Next => IndInv'")
+    if "error" in (n0, n1):
+        raise vlib.Inconclusive("PipeCoreN.IndInv is not inductive (model-level, not a verdict):\n" + chk.last_apalache[-3000:])
+    resn = chk.tlc("PipelineRefinesCoreN", cfg_text=pipe_cfg(np=3, mw=2 if thorough else 1, live=False).replace("SPECIFICATION Spec", "SPECIFICATION Spec\nINVARIANT CoreIndInv\nPROPERTY CoreSpec\nCONSTANT BatchSize <- [PipeCoreN] FiniteBatch"),
+                   timeout=1800, name="Pipeline(np=3) refines PipeCoreN")
+    chk.model_ok(resn, "Pipeline => PipeCoreN!Spec")
+    chk.cov["unbounded_inductive_invariant_3_producers"] = dict(
+        spec="PipeCoreN.tla", obligations={"Init => IndInv": n0, "IndInv /\\ [Next]_vars => IndInv'": n1},
+        parameters="3 producers sharing the buffer; any T >= 1, any batch size, any number of writes",
+        bound_to="Pipeline.tla by TLC: Spec(np=3) => PipeCoreN!Spec (%d distinct states)" % resn.distinct)
     chk.cov["unbounded_inductive_invariant"] = dict(
         spec="PipeCore.tla", tool="apalache-mc 0.58", parameters="any T >= 1, any batch size, any number of writes",
         obligations={"Init => IndInv": a0, "IndInv /\\ [Next]_vars => IndInv'": a1},
